@@ -339,4 +339,67 @@ def wwTrimHi (w : Nat) (a : List Nat) (pos : Nat) : List Nat :=
     zeroUp n (i + 1) a
   else a
 
+/-! ## wwCmpW, copying and logical operations, octet import / export (appended) -/
+
+/-- SAFE(wwCmpW): `n == 0: wordEq(w, 0) - 1`; else `z = wwIsZero(a + 1, n - 1)` (default build:
+    the SAFE edition, `diff |= a[n]`), `ret = -wordLess(a[0], w) & -1 | -wordGreater(a[0], w) & 1`,
+    `ret = -z & ret | (z - 1) & 1`.  (`w` = B_PER_W is not used; kept for a uniform signature.) -/
+def wwCmpW_safe (_w : Nat) (a : List Nat) (x : Nat) : Int :=
+  match a with
+  | [] => if x = 0 then 0 else -1
+  | a0 :: as =>
+    let z := (as.reverse.foldl (fun d y => d ||| y) 0) == 0
+    let ret : Int := if a0 < x then -1 else if a0 > x then 1 else 0
+    if z then ret else 1
+
+/-- `while (--n && cmp == 0) cmp = (a[n] == 0 ? 0 : 1);` on the reversed tail -/
+def wwCmpW_fastLoop : Int → List Nat → Int
+  | cmp, [] => cmp
+  | cmp, y :: ys => if cmp == 0 then wwCmpW_fastLoop (if y == 0 then 0 else 1) ys else cmp
+
+/-- FAST(wwCmpW) -/
+def wwCmpW_fast (_w : Nat) (a : List Nat) (x : Nat) : Int :=
+  match a with
+  | [] => if x ≠ 0 then -1 else 0
+  | a0 :: as =>
+    let cmp := wwCmpW_fastLoop 0 as.reverse
+    if cmp == 0 then (if a0 < x then -1 else if a0 > x then 1 else cmp) else cmp
+
+/-- wwXor: `while (n--) c[n] = a[n] ^ b[n];` (every index is written once, from a[n], b[n] only) -/
+def wwXor (a b : List Nat) : List Nat := List.zipWith (fun x y => x ^^^ y) a b
+/-- wwXor2: `while (n--) b[n] ^= a[n];` -/
+def wwXor2 (b a : List Nat) : List Nat := List.zipWith (fun y x => y ^^^ x) b a
+/-- wwCopy: `while (n--) b[n] = a[n];` -/
+def wwCopy (a : List Nat) : List Nat := a.map (fun x => x)
+/-- wwSwap: `while (n--) SWAP(a[n], b[n]);` — returns (new a, new b) -/
+def wwSwap (a b : List Nat) : List Nat × List Nat :=
+  ((a.zip b).map (fun p => p.2), (a.zip b).map (fun p => p.1))
+/-- wwSetW: `if (n) for (a[0] = w; --n; a[n] = 0);` -/
+def wwSetW (a : List Nat) (x : Nat) : List Nat :=
+  match a with
+  | [] => []
+  | _ :: as => x :: List.replicate as.length 0
+/-- wwRepW: `if (n) for (; n--; a[n] = w);` -/
+def wwRepW (a : List Nat) (x : Nat) : List Nat := List.replicate a.length x
+
+/-- `n` words of `O` octets each, little-endian, from an octet buffer -/
+def octetsToWords (O : Nat) : Nat → List Nat → List Nat
+  | 0, _ => []
+  | n + 1, buf => val 8 (buf.take O) :: octetsToWords O n (buf.drop O)
+
+/-- wwFrom = uNNFrom on a little-endian host: `memMove(dest, src, count)`, the rest of the last word
+    is filled with zeros; dest has W_OF_O(count) words (`w` = 8·O_PER_W) -/
+def wwFrom (w : Nat) (octets : List Nat) : List Nat :=
+  let O := w / 8
+  let n := (octets.length + O - 1) / O
+  octetsToWords O n (octets ++ List.replicate (n * O - octets.length) 0)
+
+/-- the octets of a word array in memory order (little-endian host) -/
+def wordsToOctets (O : Nat) : List Nat → List Nat
+  | [] => []
+  | x :: xs => toWords 8 O x ++ wordsToOctets O xs
+
+/-- wwTo = uNNTo on a little-endian host: `memMove(dest, src, count)` -/
+def wwTo (w : Nat) (count : Nat) (a : List Nat) : List Nat := (wordsToOctets (w / 8) a).take count
+
 end Bee2V.C05
